@@ -94,7 +94,13 @@ def run_blob(case):
 
     n = case["len"]
     kind = case.get("kind", "complete")
-    data = payload(n, case.get("seed", 0)) if kind == "complete" else b""
+    data = payload(n, case.get("seed", 0)) if kind in ("complete", "zlib") else b""
+    if kind == "zlib":
+        # a payload that really is a zlib stream (what a '.z' format announces); its declared size is its own length
+        import zlib
+
+        data = zlib.compress(data)
+        kind = "complete"
     fmt = case.get("fmt", ".bin")
     st_ = None
     try:
@@ -385,7 +391,7 @@ def check_sizes(case):
     return Info(n_eval=n, n_nontrivial=nt, label_counts={case["dir"]: n})
 
 
-SUBCHECKS = {"sizes": check_sizes, "one": check_one, "matrix": check_one, "large": check_one, "burst": check_burst, "refill": check_refill}
+SUBCHECKS = {"sizes": check_sizes, "one": check_one, "matrix": check_one, "large": check_one, "burst": check_burst, "refill": check_refill, "compressed": check_one}
 
 FRAGSETS = [
     {"c2s": [1024], "s2c": [1024], "b2s": [1024], "s2b": [1024]},
@@ -471,8 +477,8 @@ matrix_case = st.fixed_dictionaries(
         "dir": st.sampled_from(["down", "down", "up"]),
         "len": st.one_of(st.integers(0, 80), st.integers(600, 1500), st.integers(0, 4000)),
         "seed": st.integers(0, 255),
-        "fmt": st.sampled_from([".bin", ".fits", "", ".x.y", "a b", "é<&>"]),
-        "kind": st.sampled_from(["complete", "complete", "complete", "empty", "unset"]),
+        "fmt": st.sampled_from([".bin", ".fits", "", ".x.y", "a b", "é<&>", ".z", ".fits.z"]),
+        "kind": st.sampled_from(["complete", "complete", "complete", "empty", "unset", "zlib"]),
         "frags": st.fixed_dictionaries({"c2s": frag, "s2c": frag, "b2s": frag, "s2b": frag}),
         "observers": st.lists(observer_st, min_size=0, max_size=3),
     }
@@ -488,6 +494,9 @@ def run(ctx):
     # a backlog of several MB queued at once (more than any plausible per-connection buffer limit)
     bursts.append({"lens": [800_000] * 8, "frags": {"c2s": [1024], "s2c": [65536], "b2s": [1024], "s2b": [65536]}})
     ctx.each("burst", bursts, check_burst, stop_after=2, timeout=300)
+    comp = [{"dir": d, "len": L, "seed": L, "fmt": f, "kind": "zlib", "frags": FRAGSETS[0], "observers": [{"type": "raw", "policy": "Also", "frag": [1024]}]}
+            for d in ("down", "up") for f in (".z", ".fits.z", ".fits") for L in (0, 40, 700)]
+    ctx.each("compressed", comp, check_one, stop_after=2, timeout=300)
     refills = [{"dir": d, "lens": lens, "frags": FRAGSETS[0]} for d in ("down", "up") for lens in ([40, 40, 40], [700, 700], [30, 900, 30], [0, 12, 12])]
     ctx.each("refill", refills, check_refill, stop_after=2, timeout=300)
     if ctx.tier == "thorough":
